@@ -1892,7 +1892,7 @@ func TestC02(t *testing.T) {
 		if yb.bin == "" {
 			col.Count("yield-points:family-left-out")
 			for _, i := range yieldIdx {
-				results[i] = Result{Index: i, Skipped: true}
+				results[i] = Result{Index: i, Skipped: true, Crashed: "left-out"}
 			}
 		} else {
 			ycrashes := 0
@@ -1938,7 +1938,11 @@ func TestC02(t *testing.T) {
 	for i, w := range work {
 		res := results[i]
 		if res.Skipped {
-			col.Count("input-not-run-after-too-many-process-deaths")
+			if w.In.Script != nil && w.In.Script.Yield && res.Crashed == "left-out" {
+				col.Count("yield-points:script-left-out")
+			} else {
+				col.Count("input-not-run-after-too-many-process-deaths")
+			}
 			continue
 		}
 		id := col.NextID()
